@@ -106,7 +106,8 @@ Definition put_store (c : corr) (now : Q) (m : smsg) (eid : Z) : corr :=
       let c2 := with_seg c1 (dset (c_seg c1) (sm_seq m) (ref, sseq)) in
       let ss := match dget ref (c_stat c2) with
                 | Some ss => ss
-                | None => {| ss_status := []; ss_orig := m; ss_last_resp := None; ss_last_rcpt := None |}
+                | None => {| ss_status := map (fun i => (Z.of_nat i, STATUS_SENDING)) (seq 1 (Z.to_nat total));
+                             ss_orig := m; ss_last_resp := None; ss_last_rcpt := None |}
                 end in
       with_stat c2 (dset (c_stat c2) ref (set_status ss sseq STATUS_SENDING))
     else c1
@@ -275,3 +276,52 @@ Definition ser_mrun_obs (ttl : Q) (evs : list mevent) : list Z :=
   ++ [-7] ++ flat_map (fun kv => [fst kv; sm_uid (e_msg (snd kv))]) (c_store (g_corr g))
   ++ [-8] ++ map fst (c_seg (g_corr g)) ++ [-9]
   ++ flat_map (fun kv => fst kv :: flat_map (fun p => [fst p; snd p]) (ss_status (snd kv)) ++ [-1]) (c_stat (g_corr g)).
+
+(* ======================= delivery correlation (message id -> SubmitSm) =======================
+   The delivery store is kept beside `corr` (string keys are modelled as integers: the harness maps
+   message ids to numbers injectively). *)
+Definition dstore_t := dict entry.       (* _delivery_store: msg id -> (stored_at, submit_sm) *)
+
+Record receipt := { rc_uid : Z;          (* ghost: identity of the DeliverSm object *)
+                    rc_id : Z;           (* message id it names (text or TLV) *)
+                    rc_err : Z }.        (* parsed 'err' (DLR_ERROR_OTHER_ERROR when absent) *)
+
+Definition set_last_rcpt (ss : segstat) (uid : Z) : segstat :=
+  {| ss_status := ss_status ss; ss_orig := ss_orig ss; ss_last_resp := ss_last_resp ss; ss_last_rcpt := Some uid |}.
+
+(* put_delivery(smsc_message_id, submit_sm), without the sweep *)
+Definition put_delivery (d : dstore_t) (now : Q) (mid : Z) (m : smsg) (eid : Z) : dstore_t :=
+  dset d mid {| e_at := now; e_msg := m; e_id := eid |}.
+
+(* get_delivery(receipt), without the sweep *)
+Definition get_delivery (c : corr) (d : dstore_t) (r : receipt) : corr * dstore_t * option smsg :=
+  match dget (rc_id r) d with
+  | None => (c, d, None)
+  | Some e =>
+    let m := e_msg e in
+    let d' := ddel (rc_id r) d in
+    match dget (sm_seq m) (c_seg c) with
+    | Some (ref, sseq) =>
+      match dget ref (c_stat c) with
+      | Some ss =>
+        let ss1 := set_status ss sseq (rc_err r) in
+        let ss2 := if (0 <? rc_err r) || match ss_last_rcpt ss1 with None => true | Some _ => false end
+                   then set_last_rcpt ss1 (rc_uid r) else ss1 in
+        (with_stat c (dset (c_stat c) ref ss2), d', Some m)
+      | None => (c, d', Some m)
+      end
+    | None => (c, d', Some m)
+    end
+  end.
+
+(* get_segmented(smpp_seq_num, remove): (SegmentStatus found, cumulated status) *)
+Definition get_segmented (c : corr) (seq : Z) (remove : bool) : corr * option segstat * Z :=
+  match dget seq (c_seg c) with
+  | None => (c, None, 0)
+  | Some (ref, _) =>
+    let c1 := if remove then with_seg c (ddel seq (c_seg c)) else c in
+    match dget ref (c_stat c1) with
+    | None => (c1, None, 0)
+    | Some ss => let '(c2, code) := cumulated c1 ref ss in (c2, Some ss, code)
+    end
+  end.
